@@ -60,8 +60,10 @@ def parse_det(s):
 
 
 def parse_rec(s):
-    i, ln, ep, vt, ou, pu, sc = s.split(":")
-    return {"id": int(i), "len": int(ln), "epoch": int(ep), "vt": vt, "obs": _uid(ou), "pred": _uid(pu), "scene": int(sc)}
+    p = s.split(":")
+    i, ln, ep, vt, ou, pu, sc = p[:7]
+    cu = None if len(p) < 8 or p[7] == "-" else int(p[7])
+    return {"id": int(i), "len": int(ln), "epoch": int(ep), "vt": vt, "obs": _uid(ou), "pred": _uid(pu), "scene": int(sc), "custom": cu}
 
 
 def parse_trk(tokens):
@@ -119,7 +121,7 @@ def parse_output(out):
                 status = recs_s
             else:
                 recs = [parse_rec(x) for x in recs_s.split(";") if x]
-            call = {"j": int(d["j"]), "scene": int(d["scene"]), "epoch": int(d["epoch"]),
+            call = {"j": int(d["j"]), "scene": int(d["scene"]), "epoch": int(d["epoch"]), "after": int(d["after"]) if "after" in d else None,
                     "dets": [parse_det(x) for x in d.get("dets", "").split(";") if x], "recs": recs, "status": status,
                     "trk": {}, "fd": dict(pend_fd), "pos": dict(pend_pos)}
             pend_fd = defaultdict(dict)
@@ -144,7 +146,7 @@ def parse_output(out):
     return cases
 
 
-def run_spec_lines(lines, tables=True):
+def run_spec_lines(lines, tables=True, lax=False):
     """re-run specifications on the real code; returns parsed cases"""
     path = os.path.join(vlib.ALT or vlib.CACHE, "visual_replay_%d.txt" % os.getpid())
     with open(path, "w") as fh:
@@ -153,6 +155,8 @@ def run_spec_lines(lines, tables=True):
     args = ["replay", "--file", path]
     if not tables:
         args.append("--notables")
+    if lax:
+        args.append("--lax")
     rc, out, err = vlib.harness_run("visual", args, timeout=600)
     try:
         os.remove(path)
